@@ -142,6 +142,9 @@ type Features struct {
 	MidBatchFlush  int // the batch caused a rotation before its Commit returned
 	PostCommit     int
 	EmptyBatch     int
+	IterSessions   int
+	IterNonTrivial int // sessions over keys in >= 2 shards with a Seek or a Rewind after Next
+	IterLabels     map[string]int
 	dirtySince     map[string]bool // events since last reopen
 }
 
@@ -1107,6 +1110,9 @@ func (r *Runner) AddLabels() {
 	lab(r.F.MidBatchFlush > 0, "batch-rotated-before-commit-returned")
 	lab(r.F.PostCommit > 0, "post-commit-call")
 	lab(r.F.EmptyBatch > 0, "empty-batch")
+	for k, n := range r.F.IterLabels {
+		lab(n > 0, k)
+	}
 	for k, n := range r.F.ReopenAfter {
 		lab(n > 0, "reopen-after-"+k)
 	}
